@@ -62,6 +62,11 @@ META: dict[str, dict[str, str]] = {
         "note": "Exception set of pickle.load per the Python documentation; os.replace atomic within a directory; mkstemp unique." + COMMON_NOTE,
         "technique": "static analysis: structured path enumeration with inter-procedural splicing and a taint/typestate interpretation (load, key, verified, final, tmp)",
     },
+    "C17": {
+        "level": "Decides that rename_symbols rebuilds every field of the attrs class HelicityModel (fields read from the class body, exempt table: reaction_info) from one symbol mapping - keys and values where keys are symbols - with the simultaneous primitive xreplace, that new symbols carry **assumptions0, that other symbols map to themselves, that the mapping ranges over expression/kinematic-variable keys/values, and that neither the (frozen) original nor the caller's map is mutated. A field added later without a rename handler is reported by name. Numerical equivalence is not decided.",
+        "note": "xreplace is simultaneous; attrs.evolve re-runs converters." + COMMON_NOTE,
+        "technique": "static analysis: field-exhaustiveness of the attrs.evolve call with def-use dependence on the symbol mapping; role checks of the mapping comprehension",
+    },
     "C18": {
         "level": "Decides the structural clauses: binder discipline (a class that removes bound symbols from free_symbols guards their substitution), the shape of evaluate (Add over itertools.product of all pools, zip(symbols, combination) into the summand), the subtrahend of free_symbols, and on every path of cleanup whether an index is kept, substituted or compensated. The dropped-unused-index path of cleanup is a recorded known finding (K2). Evaluation for arbitrary summands is not decided.",
         "note": "SymPy's subs protocol (_eval_subs consulted first) and ExprWithLimits' own guards are trusted." + COMMON_NOTE,
